@@ -8,7 +8,7 @@ CONSTANTS
   MaxFmt <- NoFmt
   Heads <- HeadsAndEq
   OptParts <- OptsMid
-  MaxOpts = 3
+  MaxOpts = 2
   AllowNoFs = TRUE
   Setters <- NoneSet
   MaxSetters = 0
